@@ -1,6 +1,6 @@
 (* Case record and correspondence checker for connection-level runs (M1).  No proofs. *)
 From Passage Require Import Lib.Bytes Codec.VarInt Codec.Desc Gen.PacketsGen Gen.ConstsGen
-  Codec.PacketCheck Crypto.Cookie Conn.Types Conn.Prog Conn.Sem1 Conn.Monitor Conn.Order Conn.Checks.
+  Codec.PacketCheck Crypto.Cookie Conn.Types Conn.Prog Conn.Sem1 Conn.Monitor Conn.Order Conn.Checks Conn.Reader.
 
 Record conn_case := {
   cc_cfg : conn_cfg;
@@ -19,7 +19,9 @@ Record conn_case := {
   cc_outcome : outcome; cc_end : Z;
   cc_flags : Z; cc_maxalloc : Z; cc_biggest_in : Z;
   cc_order : list Z;
-  cc_note : string }.      (* global order of observed sends (0) and calls (1) *)
+  cc_note : string;
+  cc_segs : list (Z * option bytes);   (* the client's plaintext byte stream as delivered: timed segments, None = end of stream *)
+  cc_eof : Z }.      (* global order of observed sends (0) and calls (1) *)
 
 Fixpoint lookup_b {A} (k : bytes) (l : list (bytes * A)) : option A :=
   match l with [] => None | (a, v) :: r => if beq a k then Some v else lookup_b k r end.
@@ -59,8 +61,13 @@ Definition case_env (c : conn_case) : env := {|
     end;
   e_now := fun _ => cc_now c |}.
 
+(* frame-level inbox: as scripted, or - when the harness delivered raw bytes - what the
+   byte-level reader (Conn/Reader.v) makes of the segments *)
+Definition case_inbox (c : conn_case) : inbox :=
+  if Z.testbit (cc_flags c) 0 then frames_of (cf_max_len (cc_cfg c)) (cc_segs c) else cc_inbox c.
+
 Definition case_trace (c : conn_case) : trace :=
-  run1 (case_oracles c) (cc_cfg c) (case_env c) (cc_inbox c).
+  run1 (case_oracles c) (cc_cfg c) (case_env c) (case_inbox c).
 
 (* projections of a trace *)
 Fixpoint tr_sent (tr : trace) : option (list (Z * Z * bytes)) :=
@@ -106,7 +113,6 @@ Definition multibyte_id (c : conn_case) : bool :=
   existsb (fun x => match snd x with IFrame id _ => (id <? 0) || (127 <? id) | _ => false end) (cc_inbox c).
 
 Definition corr_conn (c : conn_case) : Z :=
-  if Z.testbit (cc_flags c) 0 then 4 else
   let tr := case_trace c in
   match tr_sent tr with
   | None => 4
@@ -134,7 +140,7 @@ Definition corr_diag (c : conn_case) : Z :=
    are taken from the model's run and kept in their relative position. *)
 
 Definition intent_of (c : conn_case) : Z :=
-  match cc_inbox c with
+  match case_inbox c with
   | (_, IFrame _ b) :: _ =>
       match dec vi vl (rkinds handshake_sb_HandshakePacket) b with
       | Ok [_; _; _; VZ st] _ => st
@@ -335,3 +341,115 @@ Definition obs_c07 (c : conn_case) : bool :=
 Definition check_c07 (c : conn_case) : Z :=
   let k := corr_conn c in
   if k =? 4 then 4 else k + moni (obs_c07 c && negb (outcome_eqb (cc_outcome c) (OErr KPanic))).
+
+(* ---- C04 on the implementation's observation ---- *)
+Fixpoint first_badlen (ib : inbox) : option Z :=
+  match ib with
+  | [] => None
+  | (t, IBadLen) :: _ => Some t
+  | _ :: r => first_badlen r
+  end.
+
+Definition obs_c04 (c : conn_case) : bool :=
+  let maxl := cf_max_len (cc_cfg c) in
+  (* no crash, and the handler did end after the client's end of stream *)
+  negb (outcome_eqb (cc_outcome c) (OErr KPanic))
+  && negb (outcome_eqb (cc_outcome c) OHang)
+  (* no allocation out of proportion to the configured maximum / the bytes received *)
+  && (cc_maxalloc c <=? 4 * Z.max maxl (cc_biggest_in c) + 65536)
+  (* a refused length is refused when its prefix is complete, not when the body arrives:
+     reader specification (Conn/Reader.v) on the delivered segments *)
+  && match first_badlen (frames_of maxl (cc_segs c)), cc_outcome c with
+     | Some tb, OErr KIllegalLen => cc_end c <=? tb
+     | _, _ => true
+     end.
+
+Definition check_c04 (c : conn_case) : Z := corr_conn c + moni (obs_c04 c).
+
+(* the same frames whether delivered whole or in pieces: when the input was framed, the
+   reader applied to the raw segments must give back the scripted frames *)
+Fixpoint inbox_eqb (a b : inbox) : bool :=
+  match a, b with
+  | [], [] => true
+  | (t, IFrame i x) :: a', (t', IFrame i' x') :: b' => (t =? t') && (i =? i') && beq x x' && inbox_eqb a' b'
+  | (t, IEof) :: a', (t', IEof) :: b' => (t =? t') && inbox_eqb a' b'
+  | (t, IBadLen) :: a', (t', IBadLen) :: b' => (t =? t') && inbox_eqb a' b'
+  | _, _ => false
+  end.
+
+Definition check_c08 (c : conn_case) : Z :=
+  corr_conn c
+  + moni (negb (outcome_eqb (cc_outcome c) (OErr KPanic))
+          && negb (Z.testbit (cc_flags c) 1)                       (* every frame sent to the client arrived whole *)
+          && (if Z.testbit (cc_flags c) 0 then true
+              else match first_badlen (frames_of (cf_max_len (cc_cfg c)) (cc_segs c)) with
+                   | Some _ => true      (* an over-long frame: the reader refuses it, M1's length check does the same *)
+                   | None => inbox_eqb (frames_of (cf_max_len (cc_cfg c)) (cc_segs c)) (cc_inbox c)
+                   end)).
+
+(* segmented vs unsegmented run of one scenario, on the observations alone *)
+Record seg_pair := {
+  sp_ids0 : list Z; sp_ids1 : list Z;         (* ids of the packets sent *)
+  sp_calls0 : list Z; sp_calls1 : list Z;     (* kinds of the services consulted *)
+  sp_out0 : outcome; sp_out1 : outcome;
+  sp_garbled : bool }.
+
+Fixpoint zl_eqb (a b : list Z) : bool :=
+  match a, b with [], [] => true | x :: a', y :: b' => (x =? y) && zl_eqb a' b' | _, _ => false end.
+
+(* keep-alives depend on how long the run takes: compare the packets other than Keep Alive *)
+Definition no_ka (l : list Z) : list Z := filter (fun i => negb (i =? 4)) l.
+
+Definition check_seg_pair (p : seg_pair) : Z :=
+  moni (negb (sp_garbled p) && zl_eqb (no_ka (sp_ids0 p)) (no_ka (sp_ids1 p))
+        && zl_eqb (sp_calls0 p) (sp_calls1 p) && outcome_eqb (sp_out0 p) (sp_out1 p)).
+
+(* ---- known cancellation / deferral classes (C08), decided by evaluation ----
+   [frame_spans]: for every frame of the byte stream, the time its first byte arrived and
+   the time it was complete.  A schedule is in a known class when the model's run has a
+   keep-alive tick or a raced adapter completion strictly inside such a span: the real
+   handler reads the frame id and body outside its select!, so a tick due then is deferred
+   until the frame is complete (K4), and when the outer select! drops the keep-alive
+   branch the partly read frame is lost (K1). *)
+Fixpoint timed_bytes (s : list (Z * option bytes)) : list (Z * Z) :=
+  match s with
+  | [] => []
+  | (t, Some bs) :: r => map (fun b => (t, b)) bs ++ timed_bytes r
+  | (_, None) :: _ => []
+  end.
+
+Fixpoint spans_from (max : Z) (st : rst) (start : Z) (l : list (Z * Z)) : list (Z * Z) :=
+  match l with
+  | [] => match st with RIdle | RDead => [] | _ => [(start, 10 ^ 15)] end   (* never completed *)
+  | (t, b) :: r =>
+      let start' := match st with RIdle => t | _ => start end in
+      let (st', evs) := feed_byte max st b in
+      match evs with
+      | [] => spans_from max st' start' r
+      | _ => (start', t) :: spans_from max st' start' r
+      end
+  end.
+Definition frame_spans (c : conn_case) : list (Z * Z) :=
+  spans_from (cf_max_len (cc_cfg c)) RIdle 0 (timed_bytes (cc_segs c)).
+
+Definition inside (spans : list (Z * Z)) (t : Z) : bool :=
+  existsb (fun sp => (fst sp <=? t) && (t <? snd sp)) spans.
+
+Definition cancel_class (c : conn_case) : Z :=
+  let sp := frame_spans c in
+  let tr := case_trace c in
+  if existsb (fun ev => match snd ev with
+                        | TRes (CDiscover) _ | TRes (CFilter _ _ _ _ _ _ _) _ | TRes (CSelect _ _ _ _ _ _ _) _ => inside sp (fst ev)
+                        | _ => false end) tr then 1
+  else if existsb (fun ev => match snd ev with TTick => inside sp (fst ev) | _ => false end) tr then 2
+  else if existsb (fun sp1 => existsb (fun k => (fst sp1 <=? k * P) && (k * P <? snd sp1)) [1; 2; 3; 4; 5; 6; 7; 8; 9; 10; 20; 30; 37; 38]) sp
+       then 2
+  else 0.
+
+(* final verdicts for the byte-level families: a disagreement inside a known class is
+   reported as 16 * class (+2 if the monitor is false too): a listed known finding, never silently dropped *)
+Definition with_class (c : conn_case) (code : Z) : Z :=
+  if (Z.testbit code 0) && negb (cancel_class c =? 0) then (code - 1) + 16 * cancel_class c else code.
+
+Definition check_c04b (c : conn_case) : Z := with_class c (check_c04 c).
+Definition check_c08b (c : conn_case) : Z := with_class c (check_c08 c).
